@@ -227,9 +227,24 @@ def run(ck):
                    '%d emitted <= %d consumed' % (len(puts), ngot) if len(puts) <= ngot else
                    'emits %d octets after consuming %d' % (len(puts), ngot))
         if any(x == 'ERR(EILSEQ)' for x in ev):
-            # outside the oracle: result must still be the source's error, unchanged
-            ck.verdict(res == 'error' or res == EILSEQ, 'C12.e', 'decode:%s:%s:%s' % (state, '+'.join(ev), mode), where,
-                       'source reporting -EILSEQ itself: error returned (state handling as for an invalid escape, documented ambiguity)')
+            # the SOURCE answered -EILSEQ (the decoder's own verdict for an invalid escape has the same number): it is a
+            # source error like any other - returned unchanged, decoder state untouched, since nothing was consumed.  Taken
+            # for an invalid escape, the decoder goes to skip-to-next-delimiter and the well-formed frame in progress /
+            # the next one is discarded.
+            ev2 = ['ERR' if x == 'ERR(EILSEQ)' else x for x in ev]
+            for m in (['classic', 'sof'] if mode == 'both' else [mode]):
+                row = find_row(oracle_table(), state, tuple(ev2), m)
+                k = 'decode:%s:%s:%s' % (state, '+'.join(ev), m)
+                if row is None:
+                    ck.broken('C12.e', k, where, 'path class not in the oracle table')
+                    continue
+                want = oracle_table()[row]
+                okv = (state if want[0] == 'same' and state != '?' else want[0]) == (state if nxt == 'same' and state != '?' else nxt) and (res == 'error' or res == EILSEQ)
+                ck.verdict(okv, 'C12.e', k, where,
+                           'a source answering -EILSEQ is a source error: returned unchanged, state untouched' if okv else
+                           'state %s, the SOURCE answers -EILSEQ (%s), %s mode: the decoder takes it for its own invalid-escape verdict and goes to %s although nothing was consumed; the '
+                           'property demands the error returned and the state unchanged - the frame in progress (or the next well-formed one) is silently discarded'
+                           % (state, '+'.join(ev), m, nxt))
             continue
         key = (state, tuple(ev), mode)
         val = (nxt, res, tuple(emitted))
